@@ -10,7 +10,7 @@ use std::io::{Read, Seek, Write};
 use log::debug;
 use serde::{Deserialize, Serialize};
 
-const DATATYPE_CF32: &str = "cf32";
+const DATATYPE_CF32: &str = "cf32_le";
 const VERSION: &str = "1.1.0";
 
 use crate::block::{Block, BlockRet};
